@@ -442,9 +442,36 @@ func (g *lay) expr(depth int) {
 	}
 }
 
-func genLayoutSource(t *rapid.T) []byte {
+// alignPair: an aligned call of a head (first argument beside the head, later
+// arguments wrapped) and a call of the SAME head whose first argument is
+// wrapped onto the next line.  With an IndentAlign rule for the head in the
+// Config's table the second one takes the body-indent fallback; the first one
+// must not be affected by that, in either order, on any pass.
+var alignHeads = []string{"thread-first", "thread-last", "thread-first", "thread-last", "f", "pipeline", "list", "assert-equal", "pkg:defun", "when"}
+
+func (g *lay) alignForm(head string, wrappedFirst bool) string {
+	t := g.t
+	arg := rapid.SampledFrom([]string{"xs", "x", "(g 1)", "'(1 2)", "acc"}).Draw(t, "aparg")
+	rest := rapid.SampledFrom([]string{"(f 1)\n (g 2)", "(map 'list #'f)\n(foldl #'+ 0)", "a\n  b\n c", "(f) ; t\n (g)", "(f)\n ; own\n (g)"}).Draw(t, "aprest")
+	if wrappedFirst {
+		return "(" + head + "\n  " + arg + "\n  " + rest + ")"
+	}
+	return "(" + head + " " + arg + "\n   " + rest + ")"
+}
+
+func genLayoutSource(t *rapid.T) ([]byte, string) {
 	g := &lay{t: t, budget: 60}
 	g.style = rapid.IntRange(0, 2).Draw(t, "style")
+	pairHead := ""
+	var pairFirst, pairSecond string
+	if rapid.IntRange(0, 5).Draw(t, "alignpair") == 5 {
+		pairHead = rapid.SampledFrom(alignHeads).Draw(t, "pairhead")
+		order := rapid.IntRange(0, 3).Draw(t, "pairorder") // 0-2: aligned call first, then the wrapped one
+		pairFirst, pairSecond = g.alignForm(pairHead, order == 3), g.alignForm(pairHead, order != 3)
+		if rapid.IntRange(0, 3).Draw(t, "pairthird") == 3 {
+			pairSecond += "\n" + g.alignForm(pairHead, false)
+		}
+	}
 	// optional hash-bang line, then optional leading trivia
 	switch rapid.IntRange(0, 11).Draw(t, "hashbang") {
 	case 9:
@@ -462,7 +489,19 @@ func genLayoutSource(t *rapid.T) []byte {
 	if n == 0 && rapid.IntRange(0, 3).Draw(t, "really-empty") > 0 {
 		n = 1
 	}
+	nested := pairHead != "" && rapid.IntRange(0, 3).Draw(t, "pairnested") == 3
+	if nested {
+		// both calls inside one enclosing form
+		g.b.WriteString("(defun h ()\n  " + pairFirst + "\n  " + pairSecond + ")\n")
+		g.last = cClose
+	} else if pairHead != "" {
+		g.b.WriteString(pairFirst + "\n")
+		g.last = cClose
+	}
 	for i := 0; i < n && g.budget > 0; i++ {
+		if i == 0 && pairHead != "" {
+			g.b.WriteString("\n ")
+		}
 		if i > 0 && g.style != 2 {
 			// top-level forms normally start on their own line
 			{
@@ -479,6 +518,10 @@ func genLayoutSource(t *rapid.T) []byte {
 			}
 		}
 		g.expr(3)
+	}
+	if pairHead != "" && !nested {
+		g.b.WriteString("\n" + pairSecond)
+		g.last = cClose
 	}
 	// trailing trivia at EOF
 	switch rapid.IntRange(0, 9).Draw(t, "eof") {
@@ -502,13 +545,28 @@ func genLayoutSource(t *rapid.T) []byte {
 	case 9:
 		g.b.WriteString("  \t")
 	}
-	return []byte(g.b.String())
+	return []byte(g.b.String()), pairHead
 }
 
 func genLayoutCase() *rapid.Generator[Case] {
 	return rapid.Custom(func(t *rapid.T) Case {
-		src := genLayoutSource(t)
-		return mkCase(src, genCfg(t))
+		src, pairHead := genLayoutSource(t)
+		cfg := genCfg(t)
+		if pairHead != "" && !strings.HasPrefix(pairHead, "thread-") {
+			// give the pair's head an explicit align rule in the drawn table
+			if cfg.RulesKind < 2 {
+				cfg.RulesKind = 2 + rapid.IntRange(0, 1).Draw(t, "pairruleskind")
+			}
+			name := pairHead
+			if k := strings.LastIndex(name, ":"); k >= 0 {
+				name = name[k+1:]
+			}
+			cfg.Rules = append(cfg.Rules, Rule{Name: name, Style: 0})
+			if cfg.IndentSize == 2 && cfg.MaxBlank == 1 && !cfg.Compact && !cfg.Strip && cfg.RulesKind == 0 {
+				cfg.RulesKind = 2
+			}
+		}
+		return mkCase(src, cfg)
 	})
 }
 
@@ -694,7 +752,8 @@ func genSoupCase() *rapid.Generator[Case] {
 			}
 			src = []byte(b.String())
 		case 4:
-			src = mutateBytes(t, genLayoutSource(t), 3)
+			lsrc, _ := genLayoutSource(t)
+			src = mutateBytes(t, lsrc, 3)
 		default:
 			s := rapid.SampledFrom(repoSnippets).Draw(t, "snip")
 			src = mutateBytes(t, []byte(s), 3)
